@@ -15,6 +15,9 @@ pub enum Ty {
     U32,
     F32,
     I64,
+    /// a DNA symbol: an element type whose default (the wildcard N = 4) is not the all-zero bit pattern - it is
+    /// the element type of every striped sequence
+    Sym,
 }
 
 #[derive(Clone, Debug, Serialize, Deserialize)]
@@ -82,6 +85,16 @@ impl Elem for i64 {
     }
     fn add_i64(self, v: i64) -> Self {
         self.wrapping_add(v)
+    }
+}
+impl Elem for lightmotif::abc::Nucleotide {
+    fn from_i64(v: i64) -> Self {
+        use lightmotif::abc::Alphabet;
+        lightmotif::abc::Dna::symbols()[v.rem_euclid(5) as usize]
+    }
+    fn add_i64(self, v: i64) -> Self {
+        use lightmotif::abc::{Alphabet, Symbol};
+        lightmotif::abc::Dna::symbols()[(self.as_index() as i64 + v).rem_euclid(5) as usize]
     }
 }
 impl Elem for f32 {
@@ -409,6 +422,7 @@ fn run<T: Elem, C: ArrayLength + PartialEq>(case: &Case) -> Verdict {
         Ty::U32 => "u32",
         Ty::F32 => "f32",
         Ty::I64 => "i64",
+        Ty::Sym => "nucleotide(default!=zero-bits)",
     });
     info.class(match c {
         1 => "C=1",
@@ -447,14 +461,14 @@ impl Sub for Model {
         "model"
     }
     fn rule(&self) -> &'static str {
-        "element type {u8,u32,f32,i64} x column count {1,5,7,16,21,32,43} x history of up to 40 ops (new, with_capacity, resize grow/shrink/0, reserve, cell writes via both Index forms, row writes, fill, from_rows, clone-and-continue, clone_from in both directions between matrices of different row counts and capacities, iter_mut, into_iter_mut.rev); after EVERY op rows/columns/all cells/row pointer alignment/stride/iterators (forward, reverse, mixed double-ended, len) are compared with a Vec<Vec<T>> model, then equality against a matrix with equal cells but a different padding history, and (f32) equality of a matrix holding a NaN with its clone and with itself (by the cells: unequal both times); non-trivial = >= 5 ops incl. a growing resize after writes and a shrink"
+        "element type {u8, u32, f32, i64, Nucleotide (whose default is not the zero bit pattern)} x column count {1,5,7,16,21,32,43} x history of up to 40 ops (new, with_capacity, resize grow/shrink/0, reserve, cell writes via both Index forms, row writes, fill, from_rows, clone-and-continue, clone_from in both directions between matrices of different row counts and capacities, iter_mut, into_iter_mut.rev); after EVERY op rows/columns/all cells/row pointer alignment/stride/iterators (forward, reverse, mixed double-ended, len) are compared with a Vec<Vec<T>> model, then equality against a matrix with equal cells but a different padding history, and (f32) equality of a matrix holding a NaN with its clone and with itself (by the cells: unequal both times); non-trivial = >= 5 ops incl. a growing resize after writes and a shrink"
     }
     fn cases(&self, tier: Tier) -> u64 {
         tier.pick(28 * 3_000, 28 * 60_000)
     }
     fn strategy(&self, _tier: Tier) -> BoxedStrategy<Case> {
         (
-            prop_oneof![Just(Ty::U8), Just(Ty::U32), Just(Ty::F32), Just(Ty::I64)],
+            prop_oneof![Just(Ty::U8), Just(Ty::U32), Just(Ty::F32), Just(Ty::I64), Just(Ty::Sym)],
             proptest::sample::select(vec![1usize, 5, 7, 16, 21, 32, 43]),
             proptest::collection::vec(op_strategy(), 0..40),
         )
@@ -467,6 +481,7 @@ impl Sub for Model {
             Ty::U32 => dispatch_cols!(case, u32),
             Ty::F32 => dispatch_cols!(case, f32),
             Ty::I64 => dispatch_cols!(case, i64),
+            Ty::Sym => dispatch_cols!(case, lightmotif::abc::Nucleotide),
         }
     }
 }
